@@ -3,6 +3,7 @@
 From Coq Require Import Bool List NArith ZArith Lia.
 From M Require C12Proofs.
 From M Require Tie.
+From M Require C12Latch.
 From M Require RegModel.
 From M Require RegProofs.
 Import ListNotations.
@@ -54,4 +55,44 @@ Theorem C12_tie_stb_bits :
 Proof. exact (@Tie.tie_stb_bits). Qed.
 End T_tie_stb_bits.
 Definition C12_tie_stb_bits := @T_tie_stb_bits.C12_tie_stb_bits.
+
+Module T_cond_latches. Import C12Latch. Local Open Scope bool_scope. Local Open Scope Z_scope.
+Import RegModel RegProofs. Local Open Scope N_scope.
+Theorem C12_cond_latches :
+  forall s c v cb,
+  c = OPERC \/ c = QUESC ->
+  fst (RegSet s c v cb) (event_of c) = N.lor (N.land (N.lxor (s c) (u16 v)) (u16 v)) (s (event_of c)).
+Proof. exact (@C12Latch.cond_latches). Qed.
+End T_cond_latches.
+Definition C12_cond_latches := @T_cond_latches.C12_cond_latches.
+
+Module T_cond_rise_sets_event. Import C12Latch. Local Open Scope bool_scope. Local Open Scope Z_scope.
+Import RegModel RegProofs. Local Open Scope N_scope.
+Theorem C12_cond_rise_sets_event :
+  forall s c v cb j,
+  c = OPERC \/ c = QUESC ->
+  N.testbit (s c) j = false -> N.testbit (u16 v) j = true -> N.testbit (fst (RegSet s c v cb) (event_of c)) j = true.
+Proof. exact (@C12Latch.cond_rise_sets_event). Qed.
+End T_cond_rise_sets_event.
+Definition C12_cond_rise_sets_event := @T_cond_rise_sets_event.C12_cond_rise_sets_event.
+
+Module T_cond_keeps_events. Import C12Latch. Local Open Scope bool_scope. Local Open Scope Z_scope.
+Import RegModel RegProofs. Local Open Scope N_scope.
+Theorem C12_cond_keeps_events :
+  forall s c v cb j,
+  c = OPERC \/ c = QUESC ->
+  N.testbit (s (event_of c)) j = true -> N.testbit (fst (RegSet s c v cb) (event_of c)) j = true.
+Proof. exact (@C12Latch.cond_keeps_events). Qed.
+End T_cond_keeps_events.
+Definition C12_cond_keeps_events := @T_cond_keeps_events.C12_cond_keeps_events.
+
+Module T_event_bits_sticky. Import C12Latch. Local Open Scope bool_scope. Local Open Scope Z_scope.
+Import RegModel RegProofs. Local Open Scope N_scope.
+Theorem C12_event_bits_sticky :
+  forall e,
+  is_event e -> forall ops s, Forall (fun o => ~ clears e o) ops ->
+  keeps16 (rg s e) (rg (fold_left step ops s) e).
+Proof. exact (@C12Latch.event_bits_sticky). Qed.
+End T_event_bits_sticky.
+Definition C12_event_bits_sticky := @T_event_bits_sticky.C12_event_bits_sticky.
 
